@@ -192,3 +192,27 @@ def matches(cc, bban):
     from ..oracles.core import matches_structure
     o = oracle()
     return len(bban) == o.bban_length(cc) and matches_structure(o.toks[cc], bban)
+
+
+def field_siblings(cc, field, value, rng, limit=4):
+    """(country, valid IBAN text) of OTHER countries whose `field` (bank_code, branch_code, account_code) has exactly the width
+    of `value` and a class the value fits: the same field text under another country is that country's business - whatever was
+    learnt from it must not colour what this country's rules say about it."""
+    from .. import dims
+    o, g = oracle(), gen()
+    out = []
+    for y in o.countries():
+        if y == cc:
+            continue
+        rng_ = o.positions(y).get(field)
+        if not rng_ or rng_[1] - rng_[0] != len(value):
+            continue
+        cl = g.classes(y)[rng_[0]:rng_[1]]
+        if not dims.literal_fits(value, cl):
+            continue
+        b = g.bban(y, rng)
+        b = b[:rng_[0]] + value + b[rng_[1]:]
+        if matches(y, b):
+            out.append((y, g.iban_of(y, b)))
+    rng.shuffle(out)
+    return out[:limit]
